@@ -88,6 +88,10 @@ EXPLANATION += (
     ' Round 15: the candidates compared under a parent are the leaves below that very node (R-PROV/leaves-under-parent, rule of C02).'
 )
 
+EXPLANATION += (
+    ' Round 16: a per-level settings table may name levels the reduced tree no longer has (R-GUARD/lookup-superset-tolerated, rule of C17).'
+)
+
 RULE_TEXT = (
     "one obligation per value-identity / provenance / dominance relation "
     "named above; non-trivial when both ends of the relation exist")
